@@ -464,7 +464,10 @@ impl SwiftField for Field32AmountCD {
                 let field = Field32D::parse(value)?;
                 Ok(Field32AmountCD::D(field))
             }
-            _ => {
+            Some(other) => Err(ParseError::InvalidFormat {
+                message: format!("Option {} is not supported by this field", other),
+            }),
+            None => {
                 // No variant specified, fall back to default parse behavior
                 Self::parse(value)
             }
